@@ -99,6 +99,13 @@ func streamC16(r *Rand, n int, o *Out) {
 		{"lax-host-parsing", newCfg("lax", url.NewParser(url.WithLaxHostParsing()), 0, 0),
 			func(in, base string, du *url.Url, derr error) bool { return derr != nil }},
 	}
+	// the same options on top of lax host parsing (options "alone and combined"): neutrality relative to the lax parser
+	laxCfg := neutral[5].cfg
+	neutralOnLax := []neutralOpt{
+		{"accept-invalid-code-points+lax", newCfg("lax+acceptInvalid", url.NewParser(url.WithLaxHostParsing(), url.WithAcceptInvalidCodepoints()), 0, 0), neutral[0].trigger},
+		{"percent-encode-single-percent-sign+lax", newCfg("lax+pctSingle", url.NewParser(url.WithLaxHostParsing(), url.WithPercentEncodeSinglePercentSign()), 0, 0), neutral[1].trigger},
+		{"collapse-consecutive-slashes+lax", newCfg("lax+collapse", url.NewParser(url.WithLaxHostParsing(), url.WithCollapseConsecutiveSlashes()), 0, 0), neutral[2].trigger},
+	}
 	noOpt := newCfg("NewParser()", url.NewParser(), 0, 0)
 	profNone := newProf("New()", canonicalizer.New(), 0, 0)
 	profUser := newProf("New(RemoveUserInfo)", canonicalizer.New(canonicalizer.WithRemoveUserInfo()), 0, 0)
@@ -128,6 +135,8 @@ func streamC16(r *Rand, n int, o *Out) {
 			in = rr.Pick([]string{"http", "file", "sc"}) + "://h" + strings.Repeat("/", rr.N(3)) + genPath(rr) + rr.Pick([]string{"", "/.", "/..", "//", "//.", "/./", "//../"})
 		case 4:
 			in = rr.Pick(weirdHosts) + genPath(rr) // no scheme: for default-scheme
+		case 5:
+			in = rr.Pick(specialSchemes) + "://" + rr.Pick([]string{"a\ufffdb", "\ufffd", "a.\ufffd.b", "a\ufffd\ufffdb", "x\ufffd"}) + genPath(rr)
 		}
 		du, derr := parseWith(defaultCfg.Parser, base, in)
 		h := &Hist{}
@@ -168,6 +177,20 @@ func streamC16(r *Rand, n int, o *Out) {
 			u, err := mk(no.cfg)
 			if !no.trigger(in, base, du, derr) && !sameResult(u, err, du, derr) {
 				orc.Fail("C16", "not-neutral:"+no.name, "option changed the result of an input that does not contain its trigger", tokOf())
+			}
+		}
+		if rr.P(50) {
+			lu, lerr := parseWith(laxCfg.Parser, base, in)
+			for _, no := range neutralOnLax {
+				orc.Eval("C16")
+				u, err := mk(no.cfg)
+				trig := no.trigger(in, base, lu, lerr)
+				if strings.HasPrefix(no.name, "collapse") {
+					trig = hasConsecutiveSlashes(in) || hasConsecutiveSlashes(base) || (lerr == nil && strings.Contains(lu.Pathname(), "//"))
+				}
+				if !trig && !sameResult(u, err, lu, lerr) {
+					orc.Fail("C16", "not-neutral:"+no.name, "option changed the result (relative to the lax parser) of an input that does not contain its trigger", tokOf())
+				}
 			}
 		}
 		// canonicalizer options are the standard's setters applied to the parser's result
@@ -533,13 +556,23 @@ func (w WebUrl) Spell(r *Rand, sp Spelling) string {
 		sb.WriteString(":")
 	}
 	dot := func(s string) string {
-		switch sp.DotEsc {
-		case 1:
-			s = strings.ReplaceAll(s, ".", r.Pick([]string{"%2e", "%2E", "."}))
-		case 2:
-			s = strings.ReplaceAll(s, ".", r.Pick([]string{"%252e", "%252E", "%25252e"}))
+		// every '.' of a dot segment is spelled independently (so that mixed forms such as %2e%2E and .%2e occur)
+		var sb strings.Builder
+		for _, c := range s {
+			if c != '.' {
+				sb.WriteRune(c)
+				continue
+			}
+			switch sp.DotEsc {
+			case 1:
+				sb.WriteString(r.Pick([]string{"%2e", "%2E", "."}))
+			case 2:
+				sb.WriteString(r.Pick([]string{"%252e", "%252E", "%25252e", "%2e", "."}))
+			default:
+				sb.WriteString(".")
+			}
 		}
-		return s
+		return sb.String()
 	}
 	ins := sp.DotSegs
 	for _, s := range w.Segs {
@@ -598,6 +631,9 @@ func randomSpelling(r *Rand, groupG bool) Spelling {
 	}
 	if r.P(25) {
 		sp.Space = true
+	}
+	if !groupG && sp.DotSegs > 0 {
+		sp.DotEsc = r.N(2) // the standard itself treats %2e (any case) as a dot
 	}
 	if groupG {
 		if r.P(60) {
